@@ -90,6 +90,9 @@ def main(tier):
     hist = regtrace.random_histories(rng, 2000 if thorough else 400, 60 if thorough else 40, queries=False)
     regtrace.validate(rep, bd, hist, "seeded deep registration histories with the projected registry after every call", "deep")
     rep.cov["binding_self_test"] = regtrace.self_test(bd, hist)
+    # ... and with lookups, value constructions and failing calls between the registrations (a registration decides what every LATER call sees)
+    hist_q = regtrace.random_histories(random.Random(common.seed() + 141), 1000 if thorough else 200, 40, queries=True)
+    regtrace.validate(rep, bd, hist_q, "seeded deep histories of registrations interleaved with queries and value constructions", "deepq")
     # the repository's own test-suite as a source of histories: every UnitDatabase instance a test creates is one recorded history
     # (registrations, rejected registrations, top-level queries; projected registry after each call while it is small)
     sev, sinfo = regtrace.suite_history(bd)
